@@ -218,7 +218,7 @@ static void wCArray(StreamBuffer& s, const std::string& ty, const std::string& b
 #undef X
 }
 
-template <int N> static void wCharBufN(StreamBuffer& s, const std::string& d)
+template <class S, int N> static void wCharBufN(S& s, const std::string& d)
 {
 	char buf[N];
 	memset(buf, 0, N);
@@ -226,10 +226,10 @@ template <int N> static void wCharBufN(StreamBuffer& s, const std::string& d)
 	s << buf;
 }
 
-static void wCharBuf(StreamBuffer& s, const std::string& d)
+template <class S> static void wCharBuf(S& s, const std::string& d)
 {
 	switch (d.size() + 1) {
-#define C(N) case N: wCharBufN<N>(s, d); break;
+#define C(N) case N: wCharBufN<S, N>(s, d); break;
 	C(1) C(2) C(3) C(4) C(5) C(6) C(7) C(8) C(9) C(10) C(11) C(12) C(13) C(14) C(15) C(16)
 #undef C
 	}
@@ -556,8 +556,9 @@ static std::string step1(const Toks& t)
 		if (!validHex(t[1])) return "bad-op";
 		std::string d = unhex(t[1]);
 		if (d.size() > 15) return "bad-op";
-		if (st.kind != K_SB) return "na";
-		wCharBuf(*st.sb, d);
+		if (st.kind == K_SB) wCharBuf(*st.sb, d);
+		else if (st.kind == K_FILE) wCharBuf(*st.wf, d);
+		else wCharBuf(*st.ws, d);
 		return observe();
 	}
 	if (op == "wcarr" && t.size() == 3) {
